@@ -287,11 +287,11 @@ func (r *rw) expr(e ast.Expr) ast.Expr {
 		}
 		// os.OpenFile goes through the environment seam too: the host may take its time
 		// (a FIFO without a writer, a network file system)
-		if sel, ok := x.Fun.(*ast.SelectorExpr); ok && sel.Sel.Name == "OpenFile" && len(x.Args) == 3 {
+		if sel, ok := x.Fun.(*ast.SelectorExpr); ok && (sel.Sel.Name == "OpenFile" && len(x.Args) == 3 || (sel.Sel.Name == "Readlink" || sel.Sel.Name == "Stat" || sel.Sel.Name == "Lstat") && len(x.Args) == 1) {
 			if pk, ok := sel.X.(*ast.Ident); ok {
 				if pn, ok := r.info.Uses[pk].(*types.PkgName); ok && pn.Imported().Path() == "os" {
-					r.counts["openfile"]++
-					c := r.vs("OpenFile", x.Args...)
+					r.counts["hostcall"]++
+					c := r.vs(sel.Sel.Name, x.Args...)
 					if tt := r.typeOf(x); tt != nil {
 						r.xtype[c] = tt
 					}
@@ -646,6 +646,9 @@ func main() {
 		}
 		for _, is := range f.Imports {
 			// every use of package time may have been rewritten: keep the import used
+			if p, _ := strconv.Unquote(is.Path.Value); p == "os" && (is.Name == nil || is.Name.Name == "os") && r.counts["hostcall"] > 0 {
+				f.Decls = append(f.Decls, &ast.GenDecl{Tok: token.VAR, Specs: []ast.Spec{&ast.ValueSpec{Names: []*ast.Ident{ast.NewIdent("_")}, Type: &ast.SelectorExpr{X: ast.NewIdent("os"), Sel: ast.NewIdent("FileMode")}}}})
+			}
 			if p, _ := strconv.Unquote(is.Path.Value); p == "time" && (is.Name == nil || is.Name.Name == "time") && r.counts["time"] > 0 {
 				f.Decls = append(f.Decls, &ast.GenDecl{Tok: token.VAR, Specs: []ast.Spec{&ast.ValueSpec{Names: []*ast.Ident{ast.NewIdent("_")}, Type: &ast.SelectorExpr{X: ast.NewIdent("time"), Sel: ast.NewIdent("Duration")}}}})
 			}
